@@ -10,12 +10,12 @@ RULE = ("for the histories of the MC_Parser instances text / children / attrs, F
 
 
 def run(tier, rep):
-    strides = {"text": 12, "children": 12, "attrs": 8, "names": 1} if tier == "quick" else {"text": 1, "children": 1, "attrs": 1, "names": 1}
+    strides = {"text": 12, "children": 12, "attrs": 8, "names": 1, "mixed": 6} if tier == "quick" else {"text": 1, "children": 1, "attrs": 1, "names": 1, "mixed": 1}
 
     def relation(rep, inst, cases):
         pc.run_relation(rep, "c11-rewrite", inst, cases, stride=strides[inst], extra=["--all", 0 if tier == "quick" else 1])
 
-    pc.check(rep, "C11", tier, ["text", "children", "attrs"], set(), None, 0, rule=RULE, relation=relation,
+    pc.check(rep, "C11", tier, ["text", "children", "attrs", "mixed"], set(), None, 0, rule=RULE, relation=relation,
              invariants=["TypeOK", "FormInsensitive", "Exact"], nontrivial=lambda x: x["expect"]["st"] == "ok")
     rep.add(traces_validated_against_impl=rep.coverage.get("relation_applications", 0))
     rep.assumptions += ["text versus no text, and whitespace-only text, are structure (the default reader does not trim) and "
